@@ -28,7 +28,7 @@ Task(kind, hn, delay, obs) ==
    obs |-> obs, c |-> 0, x |-> 0, t |-> "", v |-> U]
 
 NextTask(st) == Len(st.tasks) + 1
-RepeatKinds == {"repint", "repbuf"}
+RepeatKinds == {"repint", "repbuf", "urep"}
 
 (* spawn a task: allocates its HandleInfo cell (always an Arc<Mutex>); returns the state; *)
 (* the task id is Len(tasks), the handle node is Len(nodes)                                  *)
@@ -59,6 +59,9 @@ BodyFrames(st, k) ==
     [] tk.kind = "trail" ->       \* debounce_task / throttle_task: take the trailing value and emit it, value cell locked
          <<Acq(tk.c), F1("trail2", k), Rel(tk.c), F1("taskdone", k)>>
     [] tk.kind = "subscribe" -> <<Sub(tk.x, tk.obs), F1("subdone", k)>>
+    (* tasks scheduled directly through Scheduler::schedule by the harness (C19): they record that they ran *)
+    [] tk.kind = "uonce" -> <<Fr("ran", k, "", I(0), 0), F1("taskdone", k)>>
+    [] tk.kind = "usub" -> <<Fr("ran", k, "", I(0), 0), F1("mkflagsub", k), F1("subdone", k)>>
     [] OTHER -> <<F1("taskdone", k)>>
 
 (* one poll of task k: Remote::poll *)
@@ -67,9 +70,9 @@ PollFrames(st, k) == <<Acq(st.tasks[k].hn), F1("poll2", k), Rel(st.tasks[k].hn)>
 SchedOps == {"delay", "observe_on", "delay_subscription", "subscribe_on", "debounce", "throttle",
              "buffer_time", "buffer_count_time", "interval", "timer", "from_future", "from_stream"}
 SchedObserverKinds == {"delayobs", "debobs", "throbs"}
-SchedFrames == {"poll2", "taskdone", "subdone", "trail2", "tick", "tick2", "retain", "sched", "apphandle", "debcancel",
+SchedFrames == {"ran", "mkflagsub", "poll2", "taskdone", "subdone", "trail2", "tick", "tick2", "retain", "sched", "apphandle", "debcancel",
                 "debstore", "thrnext2", "streamstep", "runall", "runone"}
-SchedStims == {"adv", "run", "runall", "fresolve", "spush"}
+SchedStims == {"adv", "run", "runall", "fresolve", "spush", "tsched"}
 
 (* schedule a one-shot task and leave the subscription of its handle on the value stack *)
 SpawnOnce(st, kind, delay, obs, c, x, t, v) ==
@@ -112,6 +115,9 @@ SchedStep(st, fr) ==
            IF fin = 2 THEN Fault(st, "reentry")
            ELSE IF fin = 1 THEN Push(st, <<F1("taskdone", k)>>)
            ELSE Push(st, <<CallN(tk.obs, I(tk.seq)), F1("tick2", k)>>)
+         ELSE IF tk.kind = "urep" THEN        \* harness repeating task: runs, asks to continue while seq < 2
+           IF tk.seq < 2 THEN Push(st, <<Fr("ran", k, "", I(tk.seq), 0), F1("tick2", k)>>)
+           ELSE Push(st, <<Fr("ran", k, "", I(tk.seq), 0), F1("taskdone", k)>>)
          ELSE                                 \* emit_buffer / emit_count_buffer
            LET fin == Fin(st, tk.obs) IN
            IF fin = 2 THEN Fault(st, "reentry")
@@ -151,6 +157,11 @@ SchedStep(st, fr) ==
               IF nd.b \in {1, 3}
               THEN Push(st1, <<Acq(nd.c), Fr("vset", nd.c, "", NoneV, 0), Rel(nd.c), CallN(nd.d, fr.v)>> \o store)
               ELSE Push(st1, store)
+    [] fr.f = "ran" ->           \* the body of a harness task: one log entry <task, "R", seq>
+         [st EXCEPT !.log = Append(@, LogEntry(100 + fr.n, "R", fr.v, st.now))]
+    [] fr.f = "mkflagsub" ->     \* the subscription a subscribing harness task produces: a flag that records its unsubscription
+         LET id == NextNode(st) IN
+         RetSub(AddNode(st, [Node("flagsub", 0) EXCEPT !.a = fr.n]), SubRec("flag", id, 0))
     [] fr.f = "runone" ->        \* poll task n if it exists and is not finished
          IF fr.n <= Len(st.tasks) /\ st.tasks[fr.n].ph # "done" THEN Push(st, PollFrames(st, fr.n)) ELSE st
     [] fr.f = "runall" ->        \* the prompt executor: sweep all unfinished tasks in creation order (tasks spawned
@@ -249,6 +260,13 @@ SchedInject(st0, s) ==
   CASE s.k = "adv" -> [st0 EXCEPT !.now = @ + s.a]
     [] s.k = "run" -> Push(st0, <<F1("runone", s.a)>>)
     [] s.k = "runall" -> Push(st0, <<F2("runall", 1, 0)>>)
+    [] s.k = "tsched" ->          \* Scheduler::schedule(task, delay): a = 1 one-shot, 2 repeating (period b), 3 subscribing; b = delay (-1: none)
+         LET kind == IF s.a = 1 THEN "uonce" ELSE IF s.a = 2 THEN "urep" ELSE "usub"
+             tk0 == Task(kind, 0, IF s.a = 2 THEN -1 ELSE s.b, 0)
+             tk == IF s.a = 2 THEN [tk0 EXCEPT !.p = s.b, !.fur = st0.now + s.b] ELSE tk0
+             st1 == Spawn(st0, tk)
+             st2 == AddSub(st1, SubRec(IF s.a = 3 THEN "tasksub" ELSE "task", Len(st1.nodes), 0)) IN
+         [st2 EXCEPT !.handles = Append(@, Len(st2.subs))]
     [] s.k = "fresolve" ->        \* the scripted future a becomes ready with (t, v); a future resolves once
          IF st0.futs[s.a] = <<>> THEN [st0 EXCEPT !.futs[s.a] = <<<<s.t, s.v>>>>] ELSE st0
     [] s.k = "spush" ->           \* the scripted stream a yields an item / an error / its end
